@@ -637,6 +637,12 @@ class C02EmitMonitor(Monitor):
             self.nontrivial = True
 
 
+def tls_epoch(name):
+    import aioquic.tls as T
+
+    return getattr(T.Epoch, name)
+
+
 class C08WireMonitor(Monitor):
     """in-flight bytes put on the wire by one datagrams_to_send call <= window left (+ one probe datagram)."""
 
@@ -646,18 +652,49 @@ class C08WireMonitor(Monitor):
         self.before = {}
         self.nontrivial = False
         self.calls = 0
+        self.probe_credit = collections.Counter()
+        self.early_probe_used = set()  # endpoints that have taken their one early probe
+        self.early_flag = None
+
+    def on_timer(self, sim, x, now, deadline):
+        # one probe datagram per timeout: a timer call at or after the loss-detection deadline is such a timeout (acknowledgement, pacing and idle
+        # deadlines are not); the credit does not accumulate
+        c = sim.ep[x].conn
+        try:
+            t = c._loss.get_loss_detection_time()
+        except Exception:  # noqa
+            t = None
+        if t is not None and now >= t - 1e-9:
+            self.probe_credit[x] = 1
+
+    def on_datagram_in(self, sim, x, data, addr, now):
+        # RFC 9002 6.2.3: a client that receives Handshake or 1-RTT packets it has no keys for, and a server that receives duplicate Initial CRYPTO
+        # data, may - a limited number of times per connection - send a probe "as if the PTO had expired".  aioquic does so once per endpoint and
+        # remembers it in a flag: the moment the flag is raised counts as one timeout.
+        self.early_flag = (x, bool(getattr(sim.ep[x].conn, "_crypto_retransmitted", False)))
 
     def before_send(self, sim, x, now):
         c = sim.ep[x].conn
-        self.before[x] = (c._loss.congestion_window, c._loss.bytes_in_flight, bool(c._probe_pending), c._max_datagram_size)
+        if self.early_flag is not None and self.early_flag[0] == x and not self.early_flag[1] and getattr(c, "_crypto_retransmitted", False) and x not in self.early_probe_used:
+            self.early_probe_used.add(x)
+            self.probe_credit[x] = 1
+            sim.stats["c08:early-probe"] += 1
+        self.early_flag = None
+        self.before[x] = (c._loss.congestion_window, c._loss.bytes_in_flight, self.probe_credit[x] > 0, c._max_datagram_size)
         self.out = 0
+        self.initial_padding = 0
 
     def on_datagram_out(self, sim, x, data, addr, now):
-        for v in sim.wire.last(x):
+        views = sim.wire.last(x)
+        for v in views:
             if v.frames is None:
                 self.out += v.size
             elif any(n not in self.NOT_IN_FLIGHT for n in v.names()):
                 self.out += v.size
+        if x == "c" and len(data) >= 1200 and any(v.ptype == R.PT_INITIAL for v in views):
+            # a client datagram that holds an Initial packet has to be padded to 1200 bytes (RFC 9000 14.1): remember how much padding went into
+            # packets that count as in flight
+            self.initial_padding += sum(f.get("length", 1) for v in views if v.frames and any(n not in self.NOT_IN_FLIGHT and n != "padding" for n in v.names()) for f in v.frames if f["name"] == "padding")
 
     def after_cycle(self, sim, x, now, produced):
         if x not in self.before:
@@ -668,11 +705,14 @@ class C08WireMonitor(Monitor):
             self.nontrivial = True
             sim.stats["c08:send-while-window-half-full"] += 1
         allowed = max(0, cwnd - bif)
-        if probe:
+        if self.out > allowed and probe:
             allowed = max(allowed, mds)
+            self.probe_credit[x] = 0
+            sim.stats["c08:probe-datagram-beyond-window"] += 1
         if self.out > allowed:
             sim.violation(
-                "in-flight-bytes-exceed-congestion-window",
+                # (its own signature: the datagram had to be padded because it holds a client Initial packet, and the padding is what exceeds the window)
+                "in-flight-bytes-exceed-congestion-window-by-padding-of-client-initial-datagram" if 0 < self.out - allowed <= self.initial_padding else "in-flight-bytes-exceed-congestion-window",
                 "%s put %d in-flight bytes on the wire in one datagrams_to_send() call at t=%.4f with cwnd=%d, bytes_in_flight=%d before the call (probe pending: %s)" % (x, self.out, now, cwnd, bif, probe),
             )
             raise simnet.SimStop()
